@@ -26,7 +26,7 @@ LEVEL_NOTE = ('trusted: CPython tokenize for leaves, ast for structure; the requ
 RULE = ('enum: case = (witness, layout, target, operand form, copy); non-trivial = distinct successful coercions to a different kind; '
         'states = distinct result sources; traces = coercions checked')
 ASSUMPTIONS = ['any exception class counts as "raises" except when the two routes disagree about success']
-BOUNDS = {'quick': '537 witnesses (93 hand-written + every parameter-list shape + every arrangement of <= 3 call arguments) x 4 layouts x 105 targets x {FST root, pure AST} + non-root and copy variants on the bare layout; 7 put slots',
+BOUNDS = {'quick': '545 witnesses (101 hand-written + every parameter-list shape + every arrangement of <= 3 call arguments) x 4 layouts x 104 targets x {FST root, pure AST} + non-root and copy variants on the bare layout; 7 put slots',
           'thorough': 'all operand forms x all layouts'}
 
 WITNESSES = [
